@@ -81,6 +81,12 @@ def handle0 (line : String) : String :=
       if size == 64 ∨ size == 48 ∨ size == 32 then toHex (checkSum B size data) else "bad-op"
     | some "s", some 32, some data => toHex (checkSum S 32 data)
     | _, _, _ => "bad-op"
+  else if o.cmd == "consts" then
+    -- BlockSize, Size, (Size384, Size256 | Size128), OutputLengthUnknown
+    match o.get? "alg" with
+    | some "b" => s!"{B.bs},{B.maxSize},48,32,0"
+    | some "s" => s!"{S.bs},{S.maxSize},16,0"
+    | _ => "bad-op"
   else "bad-op"
 
 /-- the harness appends ` mut=…` (caller-memory report of hx.Arena: inputs unmodified, nothing written outside
